@@ -128,53 +128,88 @@ def prove(prop):
     return info
 
 
-GEN_SOURCES = ["pyp0f/fingerprint/tcp.py", "pyp0f/net/signatures/tcp.py", "pyp0f/fingerprint/results/uptime.py", "pyp0f/fingerprint/results/tcp.py",
-               "pyp0f/net/packet.py", "pyp0f/net/quirks.py", "pyp0f/net/layers/ip.py", "pyp0f/net/layers/tcp/tcp.py", "pyp0f/net/layers/tcp/flags.py",
-               "pyp0f/database/parse/wildcard.py", "pyp0f/fingerprint/mtu.py", "pyp0f/fingerprint/uptime.py", "pyp0f/net/signatures/mtu.py", "pyp0f/net/layers/tcp/options.py", "pyp0f/fingerprint/http.py", "pyp0f/net/layers/http/http.py", "pyp0f/fingerprint/results/http.py"]
-GEN_THEOREMS = ["gen_headers_match_eq", "gen_parse_options_eq", "gen_parse_options_terminates", "gen_find_http_match_eq", "gen_software_eq", "gen_dishonest_eq", "gen_distance_eq", "gen_find_tcp_match_eq", "gen_find_mtu_match_eq", "gen_valid_for_tcp_fingerprint_eq", "gen_valid_for_mtu_fingerprint_eq", "gen_valid_for_uptime_fingerprint_eq", "gen_mtu_from_mss_eq",
-                "gen_mtu_from_mss_reject", "gen_mtu_signatures_match_eq", "gen_divisors_eq", "gen_win_multi_eq", "gen_tcp_signatures_match_eq", "gen_round_frequency_eq", "gen_guess_distance_eq", "gen_should_fingerprint_eq"]
+GEN_GROUPS = {   # group -> (groups it builds on, proof files, theorems whose `Print Assumptions` must report "Closed under the global context")
+    "match": ([], ["GenP_match.v"], ["gen_divisors_eq", "gen_win_multi_eq", "gen_tcp_signatures_match_eq"]),
+    "uptime": ([], ["GenP_uptime.v"], ["gen_round_frequency_eq", "gen_should_fingerprint_eq", "gen_valid_for_uptime_fingerprint_eq"]),
+    "select": (["match"], ["GenP_select.v"], ["gen_guess_distance_eq", "gen_should_fingerprint_eq", "gen_valid_for_tcp_fingerprint_eq", "gen_find_tcp_match_eq", "gen_distance_eq"]),
+    "mtu": ([], ["GenP_mtu.v"], ["gen_should_fingerprint_eq", "gen_valid_for_mtu_fingerprint_eq", "gen_mtu_from_mss_eq", "gen_mtu_from_mss_reject", "gen_mtu_signatures_match_eq",
+                                 "gen_find_mtu_match_eq"]),
+    "options": ([], ["GenOptP.v"], ["gen_parse_options_eq", "gen_parse_options_terminates"]),
+    "http": ([], ["GenP_http.v", "GenHdrP.v"], ["gen_find_http_match_eq", "gen_software_eq", "gen_dishonest_eq", "gen_headers_match_eq"]),
+}
+GEN_MODEL_FILES = ["Model/Prelude.v", "Model/Bits.v", "Model/Sig.v", "Model/Matcher.v", "Model/Select.v", "Model/Uptime.v", "Model/Mtu.v", "Model/Options.v", "Model/Text.v",
+                   "Model/SigParse.v", "Model/DbParse.v", "Model/HttpRead.v", "Model/HttpMatch.v", "Proofs/BitsP.v", "Proofs/OptionsP.v", "Gen/GenLib.v"]
 
 
-def gen_tie():
-    """Regenerate Gallina from /repo's current source (translate/py2coq.py) and re-check that it equals the hand-written
-    models (coq/Gen/GenP.v).  Cached on the content of the sources, the translator, the models and the proof file."""
-    h = hashlib.sha1()
-    files = [REPO / f for f in GEN_SOURCES] + [VERIF / "translate" / "py2coq.py", COQ / "Gen" / "GenP.v", COQ / "Gen" / "GenOptP.v", COQ / "Gen" / "GenHdrP.v", COQ / "Proofs" / "OptionsP.v", COQ / "Model" / "Matcher.v",
-                                               COQ / "Model" / "Select.v", COQ / "Model" / "Uptime.v", COQ / "Model" / "Mtu.v", COQ / "Model" / "HttpMatch.v", COQ / "Model" / "Options.v", COQ / "Model" / "Sig.v", COQ / "Model" / "Bits.v"]
-    for f in files:
-        h.update(f.read_bytes() if f.exists() else b"<missing>")
-    key = h.hexdigest()
+def gen_tie(groups=None):
+    """Regenerate Gallina from /repo's current source (translate/py2coq.py, one file per group of functions) and re-check that each
+    requested group equals the hand-written models (coq/Gen/GenP_<group>.v ...).  A group's result is cached on the generated
+    text itself plus the proof and model files; failures are recomputed on every run."""
+    groups = list(groups or GEN_GROUPS)
+    order = []
+    for g in groups:
+        for d in GEN_GROUPS[g][0] + [g]:
+            if d not in order:
+                order.append(d)
     WORK.mkdir(exist_ok=True)
     (WORK / "gen_tie_cache").mkdir(exist_ok=True)
-    cache = WORK / "gen_tie_cache" / (key + ".json")       # one entry per content hash of (sources, translator, models, proofs)
-    if cache.exists():
-        try:
-            c = json.load(open(cache))
-            if c.get("key") == key:
-                return c["result"]
-        except Exception:
-            pass
-    res = {"ok": False, "obligations": len(GEN_THEOREMS), "discharged": 0, "theorems": GEN_THEOREMS, "detail": ""}
     lock = open(WORK / "gen_tie.lock", "w")
     fcntl.flock(lock, fcntl.LOCK_EX)          # concurrent checks share coq/Gen: one translation + compile at a time
-    rc, out = sh("%s %s %s %s" % (PY, VERIF / "translate" / "py2coq.py", REPO, COQ / "Gen" / "Generated.v"), 120)
-    if rc != 0:
-        res["detail"] = "translator: " + out.strip()[-400:]
-    else:
-        for ext in (".vo", ".vok", ".vos", ".glob"):
-            for n in ("Generated", "GenP", "GenOptP", "GenHdrP"):
-                q = COQ / "Gen" / (n + ext)
-                if q.exists():
-                    q.unlink()
-        rc, out = sh("timeout 600 coqc -Q . PV Gen/Generated.v && timeout 900 coqc -Q . PV Gen/GenP.v && timeout 900 coqc -Q . PV Gen/GenOptP.v && timeout 900 coqc -Q . PV Gen/GenHdrP.v", 3400, cwd=COQ)
-        if rc == 0 and out.count("Closed under the global context") == len(GEN_THEOREMS):
-            res["ok"] = True
-            res["discharged"] = len(GEN_THEOREMS)
-        else:
-            res["detail"] = "Gen/GenP.v no longer checks (the generated definition differs from the model): " + out.strip()[-600:]
-    if res["ok"]:                             # failures are recomputed on every run
-        json.dump({"key": key, "result": res}, open(cache, "w"))
-    lock.close()
+    res = {"ok": True, "obligations": 0, "discharged": 0, "theorems": [], "detail": "", "groups": {}}
+    try:
+        rc, out = sh("%s %s %s %s" % (PY, VERIF / "translate" / "py2coq.py", REPO, COQ / "Gen"), 120)
+        m = re.search(r"^STATUS (\{.*\})$", out, flags=re.M)
+        status = json.loads(m.group(1)) if (rc == 0 and m) else {}
+        model_hash = hashlib.sha1()
+        for f in GEN_MODEL_FILES + ["../translate/py2coq.py"]:
+            q = COQ / f
+            model_hash.update(q.read_bytes() if q.exists() else b"<missing>")
+        done = {}
+        for g in order:
+            deps, proofs, thms = GEN_GROUPS[g]
+            r = {"ok": False, "detail": ""}
+            res["obligations"] += len(thms)
+            res["theorems"] += ["%s:%s" % (proofs[0], t) for t in thms]
+            st = status.get(g, "translator failed: " + out.strip()[-300:])
+            if st != "ok":
+                r["detail"] = "translator (group %s): %s" % (g, st)
+            elif any(not done[d]["ok"] for d in deps):
+                r["detail"] = "group %s builds on group %s, whose equivalence no longer checks" % (g, [d for d in deps if not done[d]["ok"]][0])
+            else:
+                h = hashlib.sha1(model_hash.digest())
+                for d in deps + [g]:
+                    h.update((COQ / "Gen" / ("Generated_%s.v" % d)).read_bytes())
+                    for pf in GEN_GROUPS[d][1]:
+                        h.update((COQ / "Gen" / pf).read_bytes())
+                cache = WORK / "gen_tie_cache" / ("%s-%s.json" % (g, h.hexdigest()))
+                if cache.exists():
+                    r = json.load(open(cache))
+                else:
+                    cmds = ["timeout 300 coqc -Q . PV Gen/GenLib.v"] if not (COQ / "Gen" / "GenLib.vo").exists() or \
+                        (COQ / "Gen" / "GenLib.vo").stat().st_mtime < (COQ / "Gen" / "GenLib.v").stat().st_mtime else []
+                    for d in deps:      # the groups it builds on must be compiled from THIS translation
+                        cmds.append("timeout 600 coqc -Q . PV Gen/Generated_%s.v" % d)
+                        cmds += ["timeout 900 coqc -Q . PV Gen/%s" % pf for pf in GEN_GROUPS[d][1]]
+                    cmds.append("timeout 600 coqc -Q . PV Gen/Generated_%s.v" % g)
+                    rc2, out2 = sh(" && ".join(cmds), 3000, cwd=COQ)
+                    closed = 0
+                    if rc2 == 0:
+                        rc2, out2 = sh(" && ".join("timeout 900 coqc -Q . PV Gen/%s" % pf for pf in proofs), 3000, cwd=COQ)
+                        closed = out2.count("Closed under the global context")
+                    if rc2 == 0 and closed == len(thms):
+                        r = {"ok": True, "detail": ""}
+                        json.dump(r, open(cache, "w"))
+                    else:
+                        r["detail"] = "Gen/%s no longer checks (the definition generated from the source differs from the model): %s" % (proofs[0], out2.strip()[-500:])
+            done[g] = r
+            res["groups"][g] = r
+            if r["ok"]:
+                res["discharged"] += len(thms)
+            elif res["ok"]:
+                res["ok"] = False
+                res["detail"] = r["detail"]
+    finally:
+        lock.close()
     return res
 
 
@@ -339,16 +374,16 @@ def run_check(prop, tier, replay=None):
         proof = prove(prop)
         if getattr(mod, "GEN_TIE", False):
             imp = getattr(mod, "GEN_TIE") == "imp"
-            g = gen_tie_imp() if imp else gen_tie()
+            g = gen_tie_imp() if imp else gen_tie(getattr(mod, "GEN_TIE"))
             proof["obligations"] += g["obligations"]
             proof["discharged"] += g["discharged"]
-            proof["theorems"] = proof.get("theorems", []) + [("Gen/GenImpP.v:" if imp else "Gen/GenP.v:") + t for t in g["theorems"]]
+            proof["theorems"] = proof.get("theorems", []) + [("Gen/GenImpP.v:" + t if imp else "Gen/" + t) for t in g["theorems"]]
             proof["checker_cmd"] = proof.get("checker_cmd", "") + (" && translate/imp2coq.py /repo coq/Gen/GeneratedImp.v && coqc Gen/GeneratedImp.v Gen/GenImpP.v" if imp else
-                                                                   " && translate/py2coq.py /repo coq/Gen/Generated.v && coqc Gen/Generated.v Gen/GenP.v")
+                                                                   " && translate/py2coq.py /repo coq/Gen && coqc Gen/Generated_<group>.v Gen/GenP_<group>.v")
             proof["gen_tie"] = g
             if not g["ok"] and proof["ok"]:
                 proof["ok"] = False
-                proof["broken"] = "code-to-model equivalence (translator + %s): " % ("Gen/GenImpP.v" if imp else "Gen/GenP.v") + g["detail"]
+                proof["broken"] = "code-to-model equivalence (translator + %s): " % ("Gen/GenImpP.v" if imp else "Gen/GenP_<group>.v") + g["detail"]
                 proof["log"] = g["detail"]
 
     coqchk = None
